@@ -81,6 +81,7 @@ def run(chk):
                 "loc in/out x ranking (permutations and sub-lists) x coordinates (square grids side 2-7, float and integer dataframes of 2-D/3-D "
                 "points); distinct by canonical JSON; non-trivial = the constrained side holds some but not all of the ranked sensors")
     exprs, meta = [], []
+    bystander = [None]
     for _ in range(N):
         kind, info, kw, pts, side = gen_points(rng, thorough)
         n = len(pts)
@@ -176,11 +177,19 @@ def run(chk):
         for l in (("in", "out") if loc != "line" else ("line",)):
             try:
                 obj = mk(l)
+                if bystander[0] is not None:
+                    # another shape object with other data is asked in between: nothing of it may show up in this object's answer
+                    try:
+                        bo, br, bi = bystander[0]
+                        impl.quiet(lambda: bo.get_constraint_indices(all_sensors=br.copy(), info=bi))
+                    except Exception:
+                        pass
                 if rng.random() < 0.6:
                     # the same shape object is asked first about another ranking of the same length (call sequences)
                     impl.quiet(lambda: obj.get_constraint_indices(all_sensors=rng.permutation(ranking), info=info))
                 res = impl.quiet(lambda: obj.get_constraint_indices(all_sensors=ranking.copy(), info=info))
                 got[l] = [int(i) for i in res[0]]
+                bystander[0] = (obj, ranking.copy(), info)
             except Exception as e:
                 got[l] = "EXC " + type(e).__name__ + ": " + str(e)[:80]
         rk = ranking.tolist()
